@@ -6,6 +6,7 @@
 -/
 import Model.Render
 import Lemmas.Render
+import Lemmas.RenderSpec
 
 namespace DI.C20
 
@@ -105,5 +106,190 @@ theorem geo_summary_per_row (gs : List (Option Str)) : (gs.map geoSummary).lengt
 /-- the hypotheses of `df_block_lines_same_width` are satisfiable with wide and zero-width characters. -/
 example : let wc : Char → Option Nat := fun c => if c = '中' then some 2 else if c = '́' then some 0 else some 1
     (upad wc ["中".toList, "ab".toList, "é".toList]).map (ulen wc) = [2, 2, 2] := by decide
+
+/-! ## round 3: exact specifications -/
+
+/-- `util.utruncate`, exactly the loop `for i in range(1, len(s)): if ulen(s[:i]) > width: return s[:i-1]`
+    / `return s`, with no hypothesis on the widths: the result is a prefix of `s`; either there is a
+    first `k` in `1 … len(s)-1` whose prefix is too wide and the result is `s[:k-1]`, or no proper
+    non-empty prefix is too wide and the result is `s` itself (`s[:len(s)]` is never tested). -/
+theorem utruncate_spec (s : Str) (width : Nat) :
+    utruncate wc s width <+: s ∧
+    ((∃ k, 1 ≤ k ∧ k < s.length ∧ width < ulen wc (s.take k) ∧
+        (∀ j, 1 ≤ j → j < k → ulen wc (s.take j) ≤ width) ∧
+        utruncate wc s width = s.take (k - 1)) ∨
+    ((∀ j, 1 ≤ j → j < s.length → ulen wc (s.take j) ≤ width) ∧ utruncate wc s width = s)) :=
+  utruncate_prefix_and_exact s width
+
+/-- when every character has a width (widths are then monotone along prefixes): if the string without
+    its last character fits, the string is returned whole; otherwise the result is the LONGEST prefix
+    that fits (`s[:k]` fits, `s[:k+1]` does not, every fitting prefix is at most `k` long). -/
+theorem utruncate_longest_fitting_prefix {s : Str} (hs : Printable wc s) (width : Nat) :
+    (ulen wc s.dropLast ≤ width ∧ utruncate wc s width = s) ∨
+    (width < ulen wc s.dropLast ∧ ∃ k, k + 1 < s.length ∧ utruncate wc s width = s.take k ∧
+        ulen wc (s.take k) ≤ width ∧ width < ulen wc (s.take (k + 1)) ∧
+        ∀ p, p <+: s → ulen wc p ≤ width → p.length ≤ k) :=
+  utruncate_spec_printable hs width
+
+/-- FINDING (real in the Python: `util.utruncate("ab中", 2) == "ab中"`, and
+    `Vector(["ab中"]).to_strings(truncate_width=3)` gives `"ab中…"`, 5 columns wide): the loop never
+    tests the whole string, so a string that is too wide only because of its last character is
+    returned whole — for every string and width … -/
+theorem utruncate_whole_when_only_last_char_overflows {s : Str} (hs : Printable wc s) (width : Nat)
+    (h : ulen wc s.dropLast ≤ width) : utruncate wc s width = s :=
+  utruncate_last_char_quirk_general hs width h
+
+/-- … and concretely (`中` two columns wide): width 2 requested, 4 returned; the cell truncated to 3 is
+    5 wide, where `"abcd"` gives `"ab…"`. -/
+theorem utruncate_last_char_quirk :
+    utruncate wcDemo "ab中".toList 2 = "ab中".toList ∧ ulen wcDemo (utruncate wcDemo "ab中".toList 2) = 4 ∧
+    truncCell wcDemo (some 3) "ab中".toList = "ab中…".toList ∧ ulen wcDemo (truncCell wcDemo (some 3) "ab中".toList) = 5 ∧
+    truncCell wcDemo (some 3) "abcd".toList = "ab…".toList := DI.Render.utruncate_last_char_quirk
+
+/-- "the truncated string fits into `width`" is false in general … -/
+theorem utruncate_fits_counterexample :
+    ¬ (∀ (s : Str) (width : Nat), Printable wcDemo s → ulen wcDemo (utruncate wcDemo s width) ≤ width) :=
+  DI.Render.utruncate_fits_counterexample
+
+/-- … and true exactly outside the quirk: the string fits already, or does not fit even without its
+    last character. -/
+theorem utruncate_fits_partial {s : Str} (hs : Printable wc s) (width : Nat)
+    (h : ulen wc s ≤ width ∨ width < ulen wc s.dropLast) : ulen wc (utruncate wc s width) ≤ width :=
+  DI.Render.utruncate_fits_partial hs width h
+
+/-- a cell truncated to `truncate_width = t ≥ 1` is at most `t` wide, except in the quirk case, where
+    the whole first line is kept and "…" appended. -/
+theorem truncated_cell_width (hell : wc '…' = some 1) (t : Nat) (ht : 1 ≤ t) (s : Str) (hs : Printable wc s) :
+    ulen wc (truncCell wc (some t) s) ≤ t ∨
+    (truncCell wc (some t) s = firstLine s ++ ['…'] ∧ ulen wc (firstLine s).dropLast ≤ t - 1 ∧
+      t - 1 < ulen wc (firstLine s)) :=
+  truncCell_fits_or_quirk hell t ht s hs
+
+/-- `util.upad`, both alignments (`upadLeft` is `align="left"`), position by position: string `i` is
+    the original with exactly `width - ulen(x)` spaces on the left (align right) or right (align
+    left); `width = max ulen` is an upper bound that is attained; original width + number of padding
+    spaces = `width`; every padded string has display width `width`. -/
+theorem upad_spec (hsp : wc ' ' = some 1) (xs : List Str) (hp : ∀ x ∈ xs, Printable wc x) :
+    (upad wc xs).length = xs.length ∧ (upadLeft wc xs).length = xs.length ∧
+    (∀ x ∈ xs, ulen wc x ≤ maxWidth wc xs) ∧ (xs ≠ [] → ∃ x ∈ xs, ulen wc x = maxWidth wc xs) ∧
+    ∀ (i : Nat) (h : i < xs.length),
+      (upad wc xs)[i]? = some (spaces (maxWidth wc xs - ulen wc xs[i]) ++ xs[i]) ∧
+      (upadLeft wc xs)[i]? = some (xs[i] ++ spaces (maxWidth wc xs - ulen wc xs[i])) ∧
+      ulen wc xs[i] + (spaces (maxWidth wc xs - ulen wc xs[i])).length = maxWidth wc xs ∧
+      ulen wc (spaces (maxWidth wc xs - ulen wc xs[i]) ++ xs[i]) = maxWidth wc xs ∧
+      ulen wc (xs[i] ++ spaces (maxWidth wc xs - ulen wc xs[i])) = maxWidth wc xs :=
+  upad_spec_full hsp xs hp
+
+/-- `DataFrame.to_string`, the complete line structure (`n = min(nrow, max_rows)`; `cells` are
+    `column[:n].to_strings(...)`, hence `n` long).  The columns are cut into consecutive non-empty
+    segments `segs` with `segs.flatten = cols`: every column is in exactly one block, in column order.
+    The output is, per segment, a separator ("." first, "" afterwards) and the `n + 3` lines of
+    `blockSpec`: line 0 = the row-number padding and, in column order, a space and each column NAME
+    right-aligned to its column width; line 1 the same with the dtype LABELS; line 2 the rule; then the
+    `n` data rows; after the blocks "." and, iff rows were cut, the footer.  So every name and every
+    label occurs in exactly one block, in that block's header lines, in column order; a block has
+    `n + 3` lines, and all blocks together `#blocks · (n + 4)`. -/
+theorem df_shows_every_column_name_and_label (cols : List Col) (nrow maxRows maxw : Nat) (hne : cols ≠ [])
+    (hn : ∀ c ∈ cols, c.cells.length = min nrow maxRows) :
+    ∃ segs : List (List Col), segs.flatten = cols ∧ (∀ g ∈ segs, g ≠ []) ∧
+      dfToString wc cols nrow maxRows maxw =
+        some (blocksSpec wc (min nrow maxRows) 0 segs ++ [['.']] ++
+          (if maxRows < nrow then [footer nrow] else [])) ∧
+      (∀ g : List Col, blockSpec wc (min nrow maxRows) g =
+        (spaces (numWidth wc (min nrow maxRows)) ++
+            (g.map (fun c => ' ' :: (spaces (colWidth wc c - ulen wc c.name) ++ c.name))).flatten) ::
+        (spaces (numWidth wc (min nrow maxRows)) ++
+            (g.map (fun c => ' ' :: (spaces (colWidth wc c - ulen wc c.label) ++ c.label))).flatten) ::
+        ruleLine wc (min nrow maxRows) g ::
+        (List.range (min nrow maxRows)).map (fun j =>
+          padTo wc (numWidth wc (min nrow maxRows)) (natStr j) ++
+            (g.map (fun c => ' ' :: padTo wc (colWidth wc c) (c.cells[j]?.getD []))).flatten)) ∧
+      (∀ g : List Col, (blockSpec wc (min nrow maxRows) g).length = min nrow maxRows + 3) ∧
+      (∀ k, (blocksSpec wc (min nrow maxRows) k segs).length = segs.length * (min nrow maxRows + 4)) :=
+  dfToString_names_labels cols nrow maxRows maxw hne hn
+
+/-- the total number of lines: `#blocks · (n + 4) + 1`, plus 1 for the footer iff rows were cut. -/
+theorem df_line_count (cols : List Col) (nrow maxRows maxw : Nat) (hne : cols ≠ [])
+    (hn : ∀ c ∈ cols, c.cells.length = min nrow maxRows) :
+    ∃ lines, dfToString wc cols nrow maxRows maxw = some lines ∧
+      lines.length =
+        (layout wc maxw (rowNumbers wc (min nrow maxRows)) (cols.map (mkCol wc))).length * (min nrow maxRows + 4)
+          + 1 + (if maxRows < nrow then 1 else 0) :=
+  dfToString_line_count cols nrow maxRows maxw hne hn
+
+/-- `max_width`: within a block all `n + 3` lines have the same display width
+    `dfWidth = numWidth + Σ (colWidth + 1)`, and that width is at most `max_width` — unless the block
+    holds a single column which, next to the row numbers, is wider than `max_width`: such a column gets
+    a block of its own and nothing is cut.  Blocks are filled greedily: a block is closed only when the
+    next column would push it over `max_width` (`GreedyChain`). -/
+theorem df_blocks_fit_width (hsp : wc ' ' = some 1) (hrule : wc '─' = some 1)
+    (hdig : ∀ c : Char, c.isDigit = true → wc c = some 1)
+    (cols : List Col) (nrow maxRows maxw : Nat) (hne : cols ≠ [])
+    (hp : ∀ c ∈ cols, ColPrintable wc c)
+    (hn : ∀ c ∈ cols, c.cells.length = min nrow maxRows) :
+    ∃ segs : List (List Col), segs.flatten = cols ∧
+      dfToString wc cols nrow maxRows maxw =
+        some (blocksSpec wc (min nrow maxRows) 0 segs ++ [['.']] ++
+          (if maxRows < nrow then [footer nrow] else [])) ∧
+      (∀ g ∈ segs,
+        (∀ l ∈ blockSpec wc (min nrow maxRows) g, ulen wc l = dfWidth wc (min nrow maxRows) g ∧ Printable wc l) ∧
+        (dfWidth wc (min nrow maxRows) g ≤ maxw ∨
+          ∃ c, g = [c] ∧ maxw < numWidth wc (min nrow maxRows) + colWidth wc c + 1)) ∧
+      GreedyChain wc maxw (numWidth wc (min nrow maxRows))
+        (layout wc maxw (rowNumbers wc (min nrow maxRows)) (cols.map (mkCol wc))) :=
+  dfToString_fits hsp hrule hdig cols nrow maxRows maxw hne hp hn
+
+/-- whenever every single column fits next to the row-number column, no line of any block is wider
+    than `max_width`. -/
+theorem df_fits_when_every_column_fits (hsp : wc ' ' = some 1) (hrule : wc '─' = some 1)
+    (hdig : ∀ c : Char, c.isDigit = true → wc c = some 1)
+    (cols : List Col) (nrow maxRows maxw : Nat) (hne : cols ≠ [])
+    (hp : ∀ c ∈ cols, ColPrintable wc c)
+    (hn : ∀ c ∈ cols, c.cells.length = min nrow maxRows)
+    (hfit : ∀ c ∈ cols, numWidth wc (min nrow maxRows) + colWidth wc c + 1 ≤ maxw) :
+    ∃ segs : List (List Col), segs.flatten = cols ∧
+      dfToString wc cols nrow maxRows maxw =
+        some (blocksSpec wc (min nrow maxRows) 0 segs ++ [['.']] ++
+          (if maxRows < nrow then [footer nrow] else [])) ∧
+      ∀ g ∈ segs, ∀ l ∈ blockSpec wc (min nrow maxRows) g, ulen wc l ≤ maxw :=
+  dfToString_fits_all hsp hrule hdig cols nrow maxRows maxw hne hp hn hfit
+
+/-- `Vector.to_string(max_elements)` (`vecToRows` composes the model's parts as the Python does), for
+    every print width: the tokens are "[", exactly `min(len, max_elements)` elements — element `i` is
+    string `i` of the vector right-aligned to the widest shown one —, then "..." iff
+    `max_elements < len`, then "] dtype". -/
+theorem vector_to_string_structure (pw : Nat) (xs : List Str) (maxEl : Nat) (label : Str) :
+    ∃ shown : List Str,
+      unrows (vecToRows wc pw xs maxEl label) =
+        ['['] :: shown ++ (if maxEl < xs.length then ["...".toList] else []) ++ [']' :: ' ' :: label] ∧
+      shown.length = min xs.length maxEl ∧
+      (∀ (i : Nat) (h : i < min xs.length maxEl),
+        shown[i]? = some (padTo wc (maxWidth wc (xs.take maxEl)) (xs[i]'(by omega)))) ∧
+      (unrows (vecToRows wc pw xs maxEl label)).length =
+        min xs.length maxEl + 2 + (if maxEl < xs.length then 1 else 0) :=
+  vecToRows_structure pw xs maxEl label
+
+/-- the token after the last shown element is "..." iff elements were cut (an element that itself
+    reads "..." cannot be confused with the marker: the marker has a position of its own). -/
+theorem vector_marker_iff_cut (elems : List Str) (cut : Bool) (label : Str) :
+    (vecTokens elems cut label)[elems.length]? = some "...".toList ↔ cut = true :=
+  vecTokens_marker_iff elems cut label
+
+/-- nothing cut: every element is shown. -/
+theorem vector_all_shown_when_not_cut (pw : Nat) (xs : List Str) (maxEl : Nat) (label : Str)
+    (h : ¬ maxEl < xs.length) :
+    unrows (vecToRows wc pw xs maxEl label) = ['['] :: toStrings wc none xs ++ [']' :: ' ' :: label] :=
+  vecToRows_all_shown pw xs maxEl label h
+
+/-- `ListOfDicts.to_string(max_items)` (`lodRender` = JSON of `head(max_items)` + footer): exactly
+    `min(len, max_items)` items are rendered, all of them when nothing is cut; the footer with the true
+    total is appended iff items were cut, and it is a genuine iff (the footer is never empty). -/
+theorem lod_to_string_structure {α : Type} (toJson : List α → Str) (items : List α) (maxItems : Nat) :
+    lodRender toJson items maxItems =
+      toJson (items.take maxItems) ++ (if maxItems < items.length then lodFooter items.length else []) ∧
+    (items.take maxItems).length = min items.length maxItems ∧
+    (¬ maxItems < items.length → items.take maxItems = items) ∧
+    (lodRender toJson items maxItems = toJson (items.take maxItems) ↔ ¬ maxItems < items.length) :=
+  lodRender_structure toJson items maxItems
 
 end DI.C20
